@@ -649,4 +649,114 @@ theorem consistent_spaceBase (space acl : Nat) : Consistent (spaceBase space acl
     · intro r1 r2 v1 v2 h1 h2 _; rw [hrec] at h1 h2
       split at h1 <;> split at h2 <;> simp_all
 
+/-! ### the driver's boolean predicate is sound for `Consistent` -/
+
+theorem get_mem {s : Store} {k : Key} {v : Val} (h : s.get k = some v) : (k, v) ∈ s.docs := by
+  unfold Store.get at h
+  split at h
+  · rename_i kv hf
+    cases h
+    have hm := List.mem_of_find?_eq_some hf
+    have hk := List.find?_some hf
+    simp only [decide_eq_true_eq] at hk
+    rw [← hk]; exact hm
+  · cases h
+
+theorem changeAt_get {s : Store} {id : Nat} {c : ChangeV} (h : changeAt s id = some c) :
+    s.get ⟨.changes, id⟩ = some (.change c) := by
+  unfold changeAt at h
+  split at h
+  · cases h; assumption
+  · cases h
+
+theorem headsAt_get {s : Store} {id : Nat} {hv : HeadsV} (h : headsAt s id = some hv) :
+    s.get ⟨.heads, id⟩ = some (.heads hv) := by
+  unfold headsAt at h
+  split at h
+  · cases h; assumption
+  · cases h
+
+theorem recAt_get {s : Store} {id : Nat} {r : RecV} (h : recAt s id = some r) :
+    s.get ⟨.acl, id⟩ = some (.record r) := by
+  unfold recAt at h
+  split at h
+  · cases h; assumption
+  · cases h
+
+theorem storedBeforeB_sound {s : Store} {t o p : Nat} (h : storedBeforeB s t o p = true) : StoredBefore s t o p := by
+  unfold storedBeforeB at h
+  split at h
+  · rename_i pc hp
+    simp only [decide_eq_true_eq] at h
+    exact ⟨pc, hp, h.1, h.2⟩
+  · cases h
+
+theorem storedInB_sound {s : Store} {t x : Nat} (h : storedInB s t x = true) : StoredIn s t x := by
+  unfold storedInB at h
+  split at h
+  · rename_i c hc
+    simp only [decide_eq_true_eq] at h
+    exact ⟨c, hc, h⟩
+  · cases h
+
+theorem storedInB_complete {s : Store} {t x : Nat} (h : StoredIn s t x) : storedInB s t x = true := by
+  obtain ⟨c, hc, ht⟩ := h
+  unfold storedInB; rw [hc]; simp [ht]
+
+theorem changeOkB_sound {s : Store} {c : ChangeV} (h : changeOkB s c = true) : ChangeOk s c := by
+  unfold changeOkB at h
+  simp only [Bool.and_eq_true, List.all_eq_true] at h
+  obtain ⟨⟨⟨h1, h2⟩, h3⟩, h4⟩ := h
+  refine ⟨fun p hp => storedBeforeB_sound (h1 p hp), ?_, h3, storedInB_sound h4⟩
+  intro sn hsn
+  rw [hsn] at h2
+  exact storedBeforeB_sound h2
+
+theorem headsOkB_sound {s : Store} {t : Nat} {hv : HeadsV} (h : headsOkB s t hv = true) : HeadsOk s t hv := by
+  unfold headsOkB at h
+  simp only [Bool.and_eq_true, List.all_eq_true, Bool.not_eq_true', List.isEmpty_eq_false_iff] at h
+  obtain ⟨⟨h1, h2⟩, h3⟩ := h
+  refine ⟨h1, fun x hx => storedInB_sound (h2 x hx), ?_⟩
+  intro x hx
+  rw [hx] at h3
+  exact storedInB_sound h3
+
+theorem recsOf_mem {s : Store} {r : Nat} {rv : RecV} (h : recAt s r = some rv) : (r, rv) ∈ recsOf s := by
+  have hm := get_mem (recAt_get h)
+  unfold recsOf
+  rw [List.mem_filterMap]
+  exact ⟨(⟨.acl, r⟩, .record rv), hm, by simp [h]⟩
+
+theorem aclOkB_sound {s : Store} {acl : Nat} (h : aclOkB s acl = true) : AclOk s acl := by
+  unfold aclOkB at h
+  split at h
+  · rename_i hv hh
+    split at h
+    · rename_i r hr
+      split at h
+      · rename_i rv hrv
+        simp only [Bool.and_eq_true, List.all_eq_true, decide_eq_true_eq] at h
+        obtain ⟨⟨h1, h2⟩, h3⟩ := h
+        refine ⟨hv, r, rv, hh, hr, hrv, ?_, ?_, ?_⟩
+        · intro r' rv' hr'; exact h1 _ (recsOf_mem hr')
+        · intro r' rv' hr'
+          have := h2 _ (recsOf_mem hr')
+          cases hp : rv'.prev with
+          | none => simpa [hp] using this
+          | some p =>
+            simp only [hp] at this ⊢
+            split at this
+            · rename_i pv hpv
+              simp only [decide_eq_true_eq] at this
+              exact ⟨pv, hpv, this⟩
+            · cases this
+        · intro r1 r2 v1 v2 hr1 hr2 ho
+          have := h3 _ (recsOf_mem hr1) _ (recsOf_mem hr2)
+          rcases this with hne | he
+          · exact absurd ho hne
+          · exact he
+      · cases h
+    · cases h
+  · cases h
+
 end AnySync.Store
